@@ -85,6 +85,9 @@ def stage_pairs(ctx):
                     raise Violation("children_raised", {**case, "cell": hex(c)}, observed=f"{type(e).__name__}: {e}", expected=f"{want} children")
                 if len(kids) != got:
                     raise Violation("num_children_vs_len_children", {**case, "cell": hex(c)}, observed=len(kids), expected=got)
+                if want <= 4096 and set(kids) != set(refids.children(c, b)):
+                    raise Violation("children_are_not_the_cells_descendants", {**case, "cell": hex(c)},
+                                    observed=[hex(x) for x in sorted(set(kids) - set(refids.children(c, b)))[:3]], expected="the reference descendants (distinct)")
             col.bulk(1, 1 if nt else 0, cls="pair_backed_by_children", sample=case)
         else:
             col.bulk(1, 1 if nt else 0, cls="pair_algebraic", sample=case)
